@@ -1,7 +1,7 @@
 """Role locators and tables shared by several properties (DESIGN §3 'Anchors by role')."""
 import re
 
-from engine.mir import E, apath, strip_refs, is_const, const_val, callee_name
+from engine.mir import E, apath, strip_refs, is_const, const_val, callee_name, self_path
 from engine.analyses import leaf_assign, switches_on, chain
 from engine.program import AnchorError
 from engine import tables
@@ -173,3 +173,65 @@ def str_literal_sets(prog, fnkey):
 def fn_line(prog, key):
     f = prog.fns[key]
     return {"file": f["loc"]["file"], "line": f["def_loc"]["line"], "function": key}
+
+
+def _edge_proves_empty(b, s, node, buf, flag_fn):
+    """The switch edge `node` of block s is taken only when self.<buf> is empty: buffer.is_empty()'s true edge, or the false edge of
+    the session flag (which is true whenever the buffer is non-empty: C06.R3)."""
+    from engine.analyses import bool_switch_polarity
+    t = b.blocks[s]["term"]
+    if t["discr_ty"] != "bool":
+        return False
+    pol = bool_switch_polarity(b, s).get(node)
+    d = strip_refs(b.expr_operand(t["discr"]))
+    while d.k == "un" and d.a[0] == "Not":
+        d = strip_refs(d.a[1])
+        pol = None if pol is None else (not pol)
+    if pol is None or d.k != "call" or not d.a[1]:
+        return False
+    if flag_fn is not None and d.a[0] == flag_fn and self_path(d.a[1][0]) == ():
+        return pol is False
+    if d.a[0].endswith("::is_empty"):
+        x = d.a[1][0]
+        for _ in range(4):
+            x = strip_refs(x)
+            if x.k == "call" and x.a[0].endswith("::deref") and len(x.a[1]) == 1:
+                x = x.a[1][0]
+                continue
+            break
+        return self_path(x) == (buf,) and pol is True
+    return False
+
+
+def passes_or_ends_empty(prog, b, start_bb, through, buf, flag_fn, sugg_ty, empty_ctors):
+    """Every path from block start_bb to a return passes one of the `through` blocks — or leaves over an edge on which the composed
+    text is empty and from there hands out nothing but the empty suggestion.  Returns (ok, offending block or None)."""
+    through = set(through)
+    seen, work = set(), list(b.bsucc[start_bb])
+    bypass_roots = []
+    while work:
+        x = work.pop()
+        if x in seen or x in through:
+            continue
+        seen.add(x)
+        t = b.blocks[x]["term"]
+        if t["k"] == "return":
+            return False, x
+        if t["k"] == "switch":
+            for (node, vals, tgt) in b.switch_edges(x):
+                if _edge_proves_empty(b, x, node, buf, flag_fn):
+                    bypass_roots.append(tgt)
+                else:
+                    work.append(tgt)
+        else:
+            work.extend(b.bsucc[x])
+    # the by-pass region may only construct the empty suggestion
+    for r in bypass_roots:
+        for x in b.reachable_from(r):
+            t = b.blocks[x]["term"]
+            if t["k"] == "call":
+                n = callee_name(t)
+                out_ty = prog.fns[n].get("output") if n in prog.fns else None
+                if out_ty == sugg_ty and n not in empty_ctors:
+                    return False, x
+    return True, None
